@@ -151,6 +151,144 @@ def seriesKeyWith (full : Bool) (r : SeriesReq) : Option Str :=
 
 def seriesKey (r : SeriesReq) : Option Str := seriesKeyWith true r
 
+/-! ### the matcher text
+
+  `matchers` above is `fmt.Sprintf("%s", [][]*labels.Matcher)`: `[[m m …] [m …] …]`, one matcher
+  rendered by `(*labels.Matcher).String()` as `name op "value"` with `strconv.Quote` for the value
+  (and for a name that is not a legacy identifier).  The key theorems give "equal keys ⇒ equal
+  matcher TEXT"; that the text determines the matcher SETS is a hypothesis about the rendering
+  (the quoted value is a prefix code: a `"` or `\` inside a value is escaped).  It is stated as
+  `Rendered text sets` := the decoder `unrender` reads the sets back from the text, and it is
+  checked for every generated request against the real rendering (the driver answers
+  `render-mismatch` when it fails). -/
+
+/-- a matcher as the request carries it; `op`: 0 `=`, 1 `!=`, 2 `=~`, 3 `!~` -/
+structure Matcher where
+  name : Str
+  op : Nat
+  value : Str
+  deriving DecidableEq, Repr
+
+def hexVal (c : Char) : Option Nat :=
+  if '0' ≤ c ∧ c ≤ '9' then some (c.toNat - '0'.toNat)
+  else if 'a' ≤ c ∧ c ≤ 'f' then some (c.toNat - 'a'.toNat + 10)
+  else if 'A' ≤ c ∧ c ≤ 'F' then some (c.toNat - 'A'.toNat + 10)
+  else none
+
+/-- exactly `n` hex digits -/
+def takeHex : Nat → Nat → Str → Option (Nat × Str)
+  | 0, acc, s => some (acc, s)
+  | _ + 1, _, [] => none
+  | n + 1, acc, c :: s => match hexVal c with
+    | some v => takeHex n (acc * 16 + v) s
+    | none => none
+
+/-- the inverse of `strconv.Quote` after the opening quote: content up to the closing quote, and
+    what follows it (escapes `\a \b \f \n \r \t \v \\ \" \xHH \uHHHH \UHHHHHHHH`, anything else verbatim) -/
+def unquoteBody : Nat → Str → Str → Option (Str × Str)
+  | 0, _, _ => none
+  | _ + 1, _, [] => none
+  | fuel + 1, acc, c :: s =>
+    if c = '"' then some (acc.reverse, s)
+    else if c = '\\' then
+      match s with
+      | [] => none
+      | e :: s' =>
+        if e = 'a' then unquoteBody fuel (Char.ofNat 7 :: acc) s'
+        else if e = 'b' then unquoteBody fuel (Char.ofNat 8 :: acc) s'
+        else if e = 'f' then unquoteBody fuel (Char.ofNat 12 :: acc) s'
+        else if e = 'n' then unquoteBody fuel ('\n' :: acc) s'
+        else if e = 'r' then unquoteBody fuel ('\r' :: acc) s'
+        else if e = 't' then unquoteBody fuel ('\t' :: acc) s'
+        else if e = 'v' then unquoteBody fuel (Char.ofNat 11 :: acc) s'
+        else if e = '\\' then unquoteBody fuel ('\\' :: acc) s'
+        else if e = '"' then unquoteBody fuel ('"' :: acc) s'
+        else
+          let n := if e = 'x' then 2 else if e = 'u' then 4 else if e = 'U' then 8 else 0
+          if n = 0 then none else
+          match takeHex n 0 s' with
+          | some (v, s'') => unquoteBody fuel (Char.ofNat v :: acc) s''
+          | none => none
+    else unquoteBody fuel (c :: acc) s
+
+def isIdentChar (c : Char) : Bool :=
+  ('a' ≤ c ∧ c ≤ 'z') || ('A' ≤ c ∧ c ≤ 'Z') || ('0' ≤ c ∧ c ≤ '9') || c = '_'
+
+/-- one matcher `name op "value"` and what follows it -/
+def unrenderMatcher (s : Str) : Option (Matcher × Str) := do
+  let (name, s) ← match s with
+    | '"' :: r => unquoteBody (r.length + 1) [] r
+    | _ => some (s.span isIdentChar)
+  let (op, s) ← match s with
+    | '=' :: '~' :: r => some (2, r)
+    | '=' :: r => some (0, r)
+    | '!' :: '=' :: r => some (1, r)
+    | '!' :: '~' :: r => some (3, r)
+    | _ => none
+  match s with
+  | '"' :: r =>
+    let (value, s) ← unquoteBody (r.length + 1) [] r
+    pure (⟨name, op, value⟩, s)
+  | _ => none
+
+/-- the matchers of one selector after `[`, up to and including `]` -/
+def unrenderSet : Nat → Str → Option (List Matcher × Str)
+  | 0, _ => none
+  | _ + 1, ']' :: r => some ([], r)
+  | fuel + 1, s =>
+    match unrenderMatcher s with
+    | some (m, ' ' :: r) => (unrenderSet fuel r).bind fun (ms, r') => if ms.isEmpty then none else some (m :: ms, r')
+    | some (m, ']' :: r) => some ([m], r)
+    | _ => none
+
+/-- the selectors after the outer `[`, up to and including the outer `]` -/
+def unrenderSets : Nat → Str → Option (List (List Matcher) × Str)
+  | 0, _ => none
+  | _ + 1, ']' :: r => some ([], r)
+  | fuel + 1, '[' :: s =>
+    match unrenderSet (s.length + 1) s with
+    | some (ms, ' ' :: r) => (unrenderSets fuel r).bind fun (l, r') => if l.isEmpty then none else some (ms :: l, r')
+    | some (ms, ']' :: r) => some ([ms], r)
+    | _ => none
+  | _ + 1, _ => none
+
+/-- the decoder of the matcher text -/
+def unrender (text : Str) : Option (List (List Matcher)) :=
+  match text with
+  | '[' :: s =>
+    match unrenderSets (s.length + 1) s with
+    | some (l, []) => some l
+    | _ => none
+  | _ => none
+
+/-- the hypothesis about the rendering, per request: the text reads back as the matcher sets -/
+def Rendered (text : Str) (sets : List (List Matcher)) : Prop := unrender text = some sets
+
+instance (text : Str) (sets : List (List Matcher)) : Decidable (Rendered text sets) := by
+  unfold Rendered; infer_instance
+
+def opText : Nat → Str
+  | 0 => ['=']
+  | 1 => ['!', '=']
+  | 2 => ['=', '~']
+  | _ => ['!', '~']
+
+def joinSp : List Str → Str
+  | [] => []
+  | [x] => x
+  | x :: y :: l => x ++ ' ' :: joinSp (y :: l)
+
+/-- `[[m m] [m]]` with the given way of writing a value between quotes (names written verbatim) -/
+def renderWith (q : Str → Str) (sets : List (List Matcher)) : Str :=
+  let rm := fun (m : Matcher) => m.name ++ opText m.op ++ '"' :: q m.value ++ ['"']
+  let rs := fun (ms : List Matcher) => '[' :: joinSp (ms.map rm) ++ [']']
+  '[' :: joinSp (sets.map rs) ++ [']']
+
+/-- escaping `"` and `\` only (what `strconv.Quote` does to printable ASCII) -/
+def quoteMin : Str → Str
+  | [] => []
+  | c :: s => if c = '"' ∨ c = '\\' then '\\' :: c :: quoteMin s else c :: quoteMin s
+
 /-- containsUnsafePathSegments + SingleResolver.TenantID: which tenant ids the frontend accepts -/
 def tenantAccepted (t : Str) : Bool :=
   !(t = ['.'] || t = ['.', '.'] || t.contains '\\' || t.contains '/')
